@@ -49,9 +49,9 @@ CHECKS = {
                 text="For the three (colour, bus word) impls the words produced for a symbolic pixel - as canonical polynomials over the channel bits - equal the oracle encoding (RGB565 MSB first / one 16-bit word; RGB666 three left-aligned bytes) on both the per-pixel stream path and the solid-fill path, with count and words-per-pixel passed on unchanged: all 65 536 / 262 144 values at once. COLMOD per model is C11c-pixel-format.",
                 note="Trusted: rustc MIR, interpreter, embedded-graphics-core raw layout (cross-checked against the compiler-evaluated RED/GREEN/BLUE constants) and accessor semantics, MIPI DBI formats."),
     "C06": dict(level="other", design="5/C06",
-                technique="event-order (typestate) analysis of the SpiInterface bodies, required-flow rule on written slice lengths, per-path conservation rule (pixels pulled vs bytes staged) over the loop's continue and exit paths, loop-progress (ranking) rule under the property's stated precondition",
-                text="Decided: send_command's word DC low / [command] / DC high / args with error prefixes; pixel methods never touch DC and only write SPI; every written slice is the part staged in this round (never the whole buffer); every loop progresses - iterator loops consume a finite iterator, the repeat counter loop decreases by an amount entailed >= 1 (this found the zero-count hang); conservation in send_pixels: on every path round the staging loop N x (pixels taken from the caller's stream) equals the bytes added to the staged length plus the bytes written, and no path leaves the loop for the write having taken a pixel it did not stage (core::iter::Zip::next is modelled exactly, so an adaptor that pulls from the stream before finding the buffer full is seen). Not decided: that exactly count*N bytes are written by send_repeated_pixel and that chunk k carries pixel k.",
-                note="Level 'other' because byte-exact delivery through the chunk arithmetic is not decided. Assumes the property's precondition len(buffer) >= N and a buffer shorter than 4 GiB. Found and fixed: count = 0 never terminated (commit d268bb6)."),
+                technique="event-order (typestate) analysis of the SpiInterface bodies, required-flow rule on written slice lengths, per-path conservation rule (pixels pulled vs bytes staged) over the loop's continue and exit paths, loop-progress (ranking) rule and panic-freedom obligations (bounded Farkas plus one product step) under the property's stated precondition",
+                text="Decided: send_command's word DC low / [command] / DC high / args with error prefixes; pixel methods never touch DC and only write SPI; every written slice is the part staged in this round (never the whole buffer); every loop progresses - iterator loops consume a finite iterator, the repeat counter loop decreases by an amount entailed >= 1 (this found the zero-count hang); conservation in send_pixels: on every path round the staging loop N x (pixels taken from the caller's stream) equals the bytes added to the staged length plus the bytes written, and no path leaves the loop for the write having taken a pixel it did not stage (core::iter::Zip::next is modelled exactly, so an adaptor that pulls from the stream before finding the buffer full is seen). send_repeated_pixel: the counter starts at count, each round writes N x what it subtracts, the remainder write is N x what is left (total count*N); no assert!/panic! is reachable and every bounds, overflow and unwrap obligation of the two pixel methods is entailed whenever the buffer holds at least one pixel. Not decided: that chunk k carries pixel k (array contents).",
+                note="Level 'other' because which bytes sit in which chunk is not decided (counts, order of events and lengths are). Assumes the property's precondition len(buffer) >= N and a buffer shorter than 4 GiB. Found and fixed: count = 0 never terminated (commit d268bb6)."),
     "C07": dict(level="other", design="5/C07",
                 technique="DFA over interpreted event traces (loops as fixpoints) for the strobe protocol; per-pin polynomial equality for the bus cache invariant; Range trip-count and overflow obligations for the repeat fast path",
                 text="Decided: every word is WR low + bus := word, then WR high; command byte with DC low, DC high before parameters, parameters and pixel words taken from the slice/array in order; per data pin (8 and 16 bit buses) the pin is driven iff the cache is empty or the bit differs, to the bit's level, early return iff the cache equals the value, cache Some(value) only after all pins succeeded and None after any pin failure (inductive step of 'pins show the last value' under arbitrary failures); the all-equal fast path is one full word plus a 1..count*N loop of bare strobes without bus updates, and its count arithmetic cannot overflow.",
